@@ -95,6 +95,8 @@ class BBUnitaryChecker(ast.NodeVisitor):
         self._check_call(node, func)
 
     def visit_TensorCall(self, node: TensorCall) -> None:
+        # The callee is an arbitrary tuple expression that may itself contain calls
+        self.visit(node.func)
         self._check_call(node, node.tensor_ty)
 
     def visit_BarrierExpr(self, node: BarrierExpr) -> None:
